@@ -17,8 +17,8 @@ META = {
             "value but distinct label objects; full comparison after every "
             "operation. Non-trivial = every history; distinct = hash of the "
             "operation list.",
-    "reach": {"state_checks": 10000, "adjacency_checks": 100000,
-              "block_view_checks": 50000, "parallel_edge_states": 500,
+    "reach": {"state_checks": 5000, "adjacency_checks": 50000,
+              "block_view_checks": 25000, "parallel_edge_states": 500,
               "op:add_present": 300, "op:discard_absent": 300,
               "op:remove_absent": 100, "op:pop_empty": 20,
               "#op_kinds": 12},
@@ -54,6 +54,14 @@ class CfgWorld:
             self.where[i] = home
         self.model = [dict(), dict()]
         L, T = gt.Edge.Label, gt.Edge.Type
+        # Edge objects that are kept and handed to later calls again (a
+        # caller holding an edge and re-using it), next to fresh equal copies
+        self.kept = []
+        # how often the state is looked at: after every operation, after
+        # about a third of them, or only at the end (lookups in between may
+        # hide state carried from one call to the next)
+        self.schedule = rnd.choice(["every", "every", "third", "end"])
+        ctx.count("schedule:" + self.schedule)
         self.labels = [lambda: None, lambda: L(T.Branch, False, False),
                        lambda: L(T.Branch), lambda: L(T.Call, True, True),
                        lambda: L(T.Fallthrough, False, True),
@@ -76,8 +84,13 @@ class CfgWorld:
 
     def edge(self):
         rnd = self.rnd
-        return self.gt.Edge(rnd.choice(self.nodes), rnd.choice(self.nodes),
-                            rnd.choice(self.labels)())
+        if self.kept and rnd.random() < 0.4:
+            return rnd.choice(self.kept)  # the identical object again
+        e = self.gt.Edge(rnd.choice(self.nodes), rnd.choice(self.nodes),
+                         rnd.choice(self.labels)())
+        if len(self.kept) < 10 and rnd.random() < 0.5:
+            self.kept.append(e)
+        return e
 
     def edges(self, c, nmax=3):
         rnd = self.rnd
@@ -123,8 +136,7 @@ class CfgWorld:
                     self.fail("membership:" + after,
                               "edge %s is in the set but 'in' says no"
                               % (self.show(e),))
-            for _ in range(3):
-                e = self.edge()
+            for e in [self.edge() for _ in range(3)] + list(self.kept):
                 if (e in cfg) != (self.key(e) in model):
                     self.fail("membership:" + after,
                               "'%s in cfg' is %s, the set says %s" % (
@@ -291,10 +303,18 @@ class CfgWorld:
                 if {self.key(e) for e in res} != exp:
                     self.fail("query:" + name,
                               "cfg %s set has wrong contents" % name)
-        if op in ("ior", "iand", "isub", "ixor") and \
-                self.irs[c].cfg is not before:
-            pass  # the attribute may be rebound to the same object only
-        self.verify(op)
+        if self.schedule == "every" or (
+                self.schedule == "third" and rnd.random() < 0.33):
+            self.verify(op)
+        else:
+            # a cheap look at one thing only, through a kept object
+            if self.kept and rnd.random() < 0.5:
+                e = rnd.choice(self.kept)
+                if (e in cfg) != (self.key(e) in model):
+                    self.fail("membership:" + op,
+                              "'%s in cfg' is %s right after %s, the set "
+                              "says %s" % (self.show(e), e in cfg, op,
+                                           self.key(e) in model))
 
 
 def run(ctx):
@@ -306,6 +326,7 @@ def run(ctx):
         w.verify("construction")
         for _ in range(case.rnd.choice([20, 40, 80, 150])):
             w.step()
+        w.verify("end")
         ctx.seen("nontrivial", case.ops)
         if case.index % 97 == 0:
             ctx.sample({"ops": case.ops[:20], "total_ops": len(case.ops)})
